@@ -41,13 +41,13 @@ func boxed(pre []byte, text ...byte) []byte {
 }
 
 var (
-	cellsR1  = boxed(nil, 'o', 'n', 'e', 0x23, 0x7e)                       // national positions 2/3 and 7/E
-	cellsR20 = boxed([]byte{0x03}, 't', 'w', 'e', 'n', 't', 'y', 0x40)     // yellow before the box, national position 4/0
-	cellsR22 = boxed([]byte{0x0d}, 't', 'w', 'o', ' ', 't', 'w', 'o')      // double height, interior space
-	cellsR24 = boxed(nil, 'l', 'a', 's', 't', 0x06, 'c', 'y', 'a', 'n')    // colour code inside the box: two runs
-	cellsOth = boxed(nil, 'o', 't', 'h', 'e', 'r')                         // never to be seen
-	cellsNon = boxed(nil, 'n', 'o', 'n', 's', 'u', 'b')                    // never to be seen
-	cells2nd = boxed(nil, 'z', 'w', 'e', 'i')                              // text of the other PID
+	cellsR1  = boxed(nil, 'o', 'n', 'e', 0x23, 0x7e)                    // national positions 2/3 and 7/E
+	cellsR20 = boxed([]byte{0x03}, 't', 'w', 'e', 'n', 't', 'y', 0x40)  // yellow before the box, national position 4/0
+	cellsR22 = boxed([]byte{0x0d}, 't', 'w', 'o', ' ', 't', 'w', 'o')   // double height, interior space
+	cellsR24 = boxed(nil, 'l', 'a', 's', 't', 0x06, 'c', 'y', 'a', 'n') // colour code inside the box: two runs
+	cellsOth = boxed(nil, 'o', 't', 'h', 'e', 'r')                      // never to be seen
+	cellsNon = boxed(nil, 'n', 'o', 'n', 's', 'u', 'b')                 // never to be seen
+	cells2nd = boxed(nil, 'z', 'w', 'e', 'i')                           // text of the other PID
 )
 
 func hdr(mag int, tens, units uint8, subtitle, erase bool, nat tt.Subset) *tt.Packet {
@@ -87,6 +87,9 @@ type builder struct {
 func (b *builder) add(u tt.Unit) {
 	if u.Packet != nil && u.Packet.Kind == tt.KHeader {
 		u.Packet.Serial = b.serial
+		if u.Packet.Mag == selMag && !u.Short {
+			b.lastNat = u.Packet.Nat // an X/28 or M/29 that follows belongs to this page
+		}
 	}
 	b.cur.Units = append(b.cur.Units, u)
 }
@@ -100,13 +103,10 @@ func (b *builder) boundary() {
 func (b *builder) letter(l string) {
 	switch l {
 	case "Hs0":
-		b.lastNat = tt.English
 		b.add(tt.Unit{Packet: hdr(selMag, 2, 0, true, true, tt.English)})
 	case "Hs1":
-		b.lastNat = tt.French
 		b.add(tt.Unit{Packet: hdr(selMag, 2, 0, true, false, tt.French)})
 	case "Hs4":
-		b.lastNat = tt.German
 		b.add(tt.Unit{Packet: hdr(selMag, 2, 0, true, false, tt.German)})
 	case "Hop": // another subtitle page of the same magazine
 		b.add(tt.Unit{Packet: hdr(selMag, 2, 1, true, true, tt.English)})
@@ -323,6 +323,8 @@ type Case struct {
 	Note   string      `json:"note,omitempty"`
 	Opts   tt.ReadOpts `json:"opts"`
 	Stream tt.Stream   `json:"stream"`
+	// Prior (sub "history"): two other streams; Stream is read after each of them and both results must agree.
+	Prior []tt.Stream `json:"prior,omitempty"`
 }
 
 type features struct {
@@ -455,28 +457,50 @@ func CheckRead(cs Case) (r Result) {
 	// Known defect shapes are recognised by re-running the reference machine under the one deviant
 	// reading that describes the defect; anything else is the generic mismatch.
 	key := "tt.read.mismatch"
-	if x.Designated && tt.Denote(blankChars(gotCues)) == tt.Denote(blankChars(x.Cues)) {
-		// same cues, lines, attributes and lengths: only the decoding of characters differs, after a
-		// correctly coded X/28/0 or M/29/0 that designates exactly the header's own set
-		key = "tt.read.x28-m29-designation-misread"
-	}
-	for _, dv := range []struct {
+	type deviant struct {
 		v   tt.Variant
 		key string
-	}{
+	}
+	deviants := []deviant{
 		{tt.Variant{DupRows: true}, "tt.read.retransmitted-row-line-repeated"},
 		{tt.Variant{DecimalAlias: true}, "tt.read.hex-page-number-aliases-decimal"},
 		{tt.Variant{DecimalAlias: true, DupRows: true}, "tt.read.hex-page-number-aliases-decimal"},
 		{tt.Variant{Restyle: true}, "tt.read.attribute-code-outside-box-restyles-previous-text"},
-	} {
-		if dx := tt.Expect(cs.Stream, cs.Opts, dv.v); dx.Unsettled == "" && got == den(dx) {
-			key = dv.key
-			break
+	}
+	var settled []tt.Expectation
+	settled = append(settled, x)
+classify:
+	for _, dv := range deviants {
+		for _, lenient := range []bool{false, true} {
+			dv.v.Lenient = lenient
+			dx := tt.Expect(cs.Stream, cs.Opts, dv.v)
+			if dx.Unsettled == tt.UnsettledDesignation {
+				settled = append(settled, dx) // candidates for the character-only comparison below
+			}
+			if dx.Unsettled != "" {
+				continue
+			}
+			if got == den(dx) {
+				key = dv.key
+				break classify
+			}
+			settled = append(settled, dx)
 		}
-		dv.v.Lenient = true
-		if dx := tt.Expect(cs.Stream, cs.Opts, dv.v); dx.Unsettled == "" && got == den(dx) {
-			key = dv.key
-			break
+	}
+	if key == "tt.read.mismatch" {
+		// Same cues, lines, attributes and lengths as the reference (or as one known deviant reading) and only
+		// the decoding of characters differs, in a stream where a correctly coded X/28/0 or M/29/0 designates
+		// exactly the set its own page header names.
+		gb := tt.Denote(blankChars(gotCues))
+		for _, dx := range settled {
+			cues := dx.Cues
+			if cs.Stream.PCR {
+				cues = zeroTimes(cues)
+			}
+			if dx.Designated && gb == tt.Denote(blankChars(cues)) {
+				key = "tt.read.x28-m29-designation-misread"
+				break
+			}
 		}
 	}
 	return Result{Key: key, Msg: fmt.Sprintf("options %+v\n expected %q\n reader returned %q", cs.Opts, want, got)}
@@ -497,6 +521,59 @@ func blankChars(cs []tt.Cue) []tt.Cue {
 		o = append(o, n)
 	}
 	return o
+}
+
+// CheckHistory: what a read returns is a function of the stream alone, so reading cs.Stream after
+// cs.Prior[0] and after cs.Prior[1] must give the same denotation (whatever it is: this also covers
+// the reserved national option code 111, for which the expected characters are not decided).
+func CheckHistory(cs Case) (r Result) {
+	b := cs.Stream.Bytes()
+	var dens []string
+	for _, p := range cs.Prior {
+		if _, _, pan := safeRead(p.Bytes(), cs.Opts); pan != nil && !pan.Astits {
+			return Result{Key: panicKey(pan, scan(p)), Msg: fmt.Sprintf("ReadFromTeletext panicked in %s: %s", pan.Func, pan.Msg)}
+		}
+		s, err, pan := safeRead(b, cs.Opts)
+		if pan != nil {
+			if pan.Astits {
+				return Result{Excluded: "astits-panic", Outcome: core.Hash64("astits-panic", pan.Func)}
+			}
+			return Result{Key: panicKey(pan, scan(cs.Stream)), Msg: fmt.Sprintf("ReadFromTeletext panicked in %s: %s", pan.Func, pan.Msg)}
+		}
+		if err != nil {
+			return Result{Key: "tt.read.error", Msg: fmt.Sprintf("ReadFromTeletext failed on a valid stream: %v", err)}
+		}
+		dens = append(dens, tt.Denote(FromSubs(s, nil)))
+	}
+	for _, d := range dens[1:] {
+		if d != dens[0] {
+			return Result{Key: "tt.read.depends-on-previous-read", Msg: fmt.Sprintf("the same stream read twice in one process\n after stream A: %q\n after stream B: %q", dens[0], d)}
+		}
+	}
+	return Result{Outcome: core.Hash64("history", dens[0])}
+}
+
+func historyCases() (out []Case) {
+	sweep := func(base int) []byte {
+		cells := []byte{0x0b, 0x0b, 'x'}
+		for c := base; c < base+0x20; c++ {
+			cells = append(cells, byte(c))
+		}
+		return append(cells, 'x', 0x0a, 0x0a)
+	}
+	prior := []tt.Subset{tt.English, tt.French, tt.German}
+	for nat := tt.Subset(0); nat < 8; nat++ {
+		for base := 0x20; base < 0x80; base += 0x20 {
+			for i := range prior {
+				p1, p2 := prior[i], prior[(i+1)%len(prior)]
+				out = append(out, Case{Sub: "history", Note: fmt.Sprintf("g0 %#x.. national option code %03b read after a page of sub-set %d and of sub-set %d", base, nat, p1, p2),
+					Opts:   tt.ReadOpts{Page: selPage, PID: mainPID},
+					Stream: rowStream(nat, sweep(base), nil),
+					Prior:  []tt.Stream{rowStream(p1, sweep(base), nil), rowStream(p2, sweep(base), nil)}})
+			}
+		}
+	}
+	return
 }
 
 // option sets
@@ -612,6 +689,18 @@ func run(c *core.Ctx) {
 		exec(rc, 2000+len(rc.Note))
 		if c.Expired() {
 			break
+		}
+	}
+
+	// (5) independence from earlier reads in the same process
+	for _, hc := range historyCases() {
+		if !c.Mine() {
+			continue
+		}
+		r := CheckHistory(hc)
+		c.Record(hc.Sub, r.Outcome, core.Hash64("history", hc.Note), func() interface{} { return map[string]interface{}{"note": hc.Note} })
+		if r.Key != "" {
+			c.Violate(hc.Sub, r.Key, r.Msg, hc, 4000+len(hc.Note))
 		}
 	}
 
@@ -742,7 +831,12 @@ func replay(sub string, raw json.RawMessage) (string, bool) {
 	if err := json.Unmarshal(raw, &cs); err != nil {
 		return err.Error(), false
 	}
-	r := CheckRead(cs)
+	r := Result{}
+	if cs.Sub == "history" {
+		r = CheckHistory(cs)
+	} else {
+		r = CheckRead(cs)
+	}
 	if r.Key == "" {
 		return "reader output denotes the transmitted pages", false
 	}
@@ -752,9 +846,9 @@ func replay(sub string, raw json.RawMessage) (string, bool) {
 func init() {
 	core.Register(&core.Prop{
 		ID: "C06", Level: "exploration",
-		Rule: "a case = (packet-sequence word, transmission mode, multiplexing variant, reader options): every word over a 26-letter alphabet of data units (selected-page headers under three national sub-sets, headers of another page / the same number in another magazine / another magazine / time-filling / hexadecimal page, rows 1 20 22 24 of the selected magazine and a row of another magazine, X/26, X/28 (well coded and zero bytes), M/29, 8/30, non-subtitle unit, stuffing, two truncated units, PES boundary (+1 s), non-EBU PES, payload-less PES, stray byte) up to the length bound, in serial and parallel mode, each read with page given/auto x PID given/auto; plus eight multiplexing variants over shorter words, the row-text tables (every G0 position under 7 national sub-sets, every string of <=3 colour/size/box codes, a parity failure at every cell) and every truncation 0..43 of six packet kinds; ReadFromTeletext under recover() must return what the reference page machine (engine/ref/teletext.Expect) derives from the model; non-trivial = non-empty word or table entry, distinct by (word, mode, variant, options)",
+		Rule: "a case = (packet-sequence word, transmission mode, multiplexing variant, reader options): every word over a 26-letter alphabet of data units (selected-page headers under three national sub-sets, headers of another page / the same number in another magazine / another magazine / time-filling / hexadecimal page, rows 1 20 22 24 of the selected magazine and a row of another magazine, X/26, X/28 (well coded and zero bytes), M/29, 8/30, non-subtitle unit, stuffing, two truncated units, PES boundary (+1 s), non-EBU PES, payload-less PES, stray byte) up to the length bound, in serial and parallel mode, each read with page given/auto x PID given/auto; plus eight multiplexing variants over shorter words, the row-text tables (every G0 position under 7 national sub-sets, every string of <=3 colour/size/box codes, a parity failure at every cell), every truncation 0..43 of six packet kinds, and 72 read-after-read pairs (the same stream read after two different streams must denote the same); ReadFromTeletext under recover() must return what the reference page machine (engine/ref/teletext.Expect) derives from the model; non-trivial = non-empty word or table entry, distinct by (word, mode, variant, options)",
 		Scope: map[core.Tier]string{
-			core.Quick:    "all words of length <= 3 over 26 letters and all words of length 4 over 16 letters, x {serial, parallel} x 4 reader option sets; 8 mux variants x words of length <= 2 over 26 letters; 5 971 row texts; 528 truncations",
+			core.Quick:    "all words of length <= 3 over 26 letters and all words of length 4 over 16 letters, x {serial, parallel} x 4 reader option sets; 8 mux variants x words of length <= 2 over 26 letters; 5 971 row texts; 528 truncations; 72 read-after-read pairs",
 			core.Thorough: "all words of length <= 4 over 26 letters and all words of length 5 over 14 letters, x {serial, parallel} x 4 reader option sets; 8 mux variants x words of length <= 3; row texts and truncations as quick",
 		},
 		Assumptions: []string{
